@@ -261,6 +261,10 @@ def rexpr(draw, depth, scope, ctx, tail=True, pyscope=None):
             fs += ['lambda v: (v, %s)' % x] * 2
         f = ('py', draw(st.sampled_from(fs)))
         e = sub()
+        if k == 'applyl' and draw(st.integers(0, 2)) == 0:
+            # the function itself is PARSED (it consumes input, first), then the argument: f <| a is f(a)
+            tok = draw(st.sampled_from([('lit', 'a'), ('rx', '[ab]'), ('lit', '1'), ('ref', 'D')]))
+            f = ('apply', tok, ('py', 'lambda d: lambda x: (d, x)'))
         return ('apply', e, f) if k == 'apply' else ('applyl', f, e)
     if k == 'count':
         ints = _names(pyscope, 'i')
